@@ -125,10 +125,14 @@ def run_native(binary, harness, vectors):
             parts = line.split(' ')
             kind = parts[0]
             if kind == 'ASSUME':
-                cur.append(('ASSUME', parts[1] == '1'))
+                cur.append(('ASSUME', parts[1] == '1', parts[2][1:] if len(parts) > 2 and parts[2].startswith('@') else None))
             elif kind == 'ASSUMEEQ':
+                lem = None
+                if parts[1].startswith('@'):
+                    lem = parts[1][1:]
+                    parts = parts[:1] + parts[2:]
                 i = parts.index('|')
-                cur.append(('ASSUMEEQ', [parse_leaf(x) for x in parts[1:i]], [parse_leaf(x) for x in parts[i + 1:]]))
+                cur.append(('ASSUMEEQ', [parse_leaf(x) for x in parts[1:i]], [parse_leaf(x) for x in parts[i + 1:]], lem))
             elif kind == 'ASSERT':
                 cur.append(('ASSERT', parts[1], parts[2] == '1'))
             elif kind == 'ASSERTEQ':
@@ -385,6 +389,26 @@ class Check:
             s.instantiations.add(fn.locals[loc])
         return m, order, o
 
+    def symbols_of(s, x):
+        """frozenset of variable names and opaque-application ids occurring in a term (memoised per term table)"""
+        from .terms import subterms, T as _T
+        memo = getattr(s, '_symmemo', None)
+        if memo is None or memo[0] is not _T.lst:
+            memo = s._symmemo = (_T.lst, {})
+        if not is_sym(x):
+            return frozenset()
+        r = memo[1].get(x[1])
+        if r is None:
+            out = set()
+            for i in subterms([x]):
+                k = _T.lst[i]
+                if k[0] == 'var':
+                    out.add(k[1])
+                elif k[0] == 'app':
+                    out.add(('app', i))
+            r = memo[1][x[1]] = frozenset(out)
+        return r
+
     def solve_obligation(s, ob, o, order):
         """-> dict(result, solver, time, model?)"""
         kind = ob['kind']
@@ -406,7 +430,29 @@ class Check:
         # relevant lemma right before the goal, so the last few atoms usually suffice and close instantly.
         if o.get('abstract_first', True):
             tried = set()
-            for kctx in o.get('contexts', (3, 8, 20, None)):
+            # 'rel': only the hypotheses that speak about nothing but the goal's own symbols (variables and opaque
+            # applications) -- independent of how far back on the path they were assumed
+            gsy = s.symbols_of(neg_goal)
+            rel = [h for h in pc if s.symbols_of(h) <= gsy]
+            for kctx in ('rel',) + tuple(o.get('contexts', (3, 8, 20, None))):
+                if kctx == 'rel':
+                    if not rel or len(rel) == len(pc):
+                        continue
+                    sub = rel
+                    tried.add(('rel', len(sub)))
+                    ascript, agroups, apr = solver.build_script(sub + [neg_goal], o, abstract=True)
+                    if ascript is not None and apr.abstracted:
+                        ares, aout, adt = solver.run_solver(ascript, 'z3', o.get('abstract_timeout', 2))
+                        if ares == 'unsat':
+                            s.stats['abstract_unsat'] = s.stats.get('abstract_unsat', 0) + 1
+                            return {'result': 'unsat', 'solver': 'z3 (non-linear terms abstracted, hypotheses over the goal symbols)', 'time': round(adt, 3), 'axioms': agroups}
+                    cscript, cgroups, cpr = solver.build_script(sub + [neg_goal], o)
+                    if cscript is not None:
+                        cres, cout, cdt = solver.run_solver(cscript, 'z3', o.get('focus_timeout', 3))
+                        if cres == 'unsat':
+                            s.stats['focused_unsat'] = s.stats.get('focused_unsat', 0) + 1
+                            return {'result': 'unsat', 'solver': 'z3 (hypotheses over the goal symbols)', 'time': round(cdt, 3), 'axioms': cgroups}
+                    continue
                 sub = pc if kctx is None or kctx >= len(pc) else pc[-kctx:]
                 key = len(sub)
                 if key in tried:
@@ -543,7 +589,20 @@ class Check:
         want_id, want_k = ob['id'].rsplit('#', 1)
         want_k = int(want_k)
         seen = {}
+        lemma_k = {}
         for e in ev:
+            lem = e[-1] if e[0] in ('ASSUME', 'ASSUMEEQ') else None
+            if lem:
+                # an assumption inside a lemma function applied by the harness: the precondition of that application, i.e.
+                # an obligation (`apply:<lemma>:pre#k`, k counting the lemma's assumptions along the run)
+                k = lemma_k.get(lem, 0)
+                lemma_k[lem] = k + 1
+                if want_id == 'apply:%s:pre' % lem and k == want_k:
+                    if e[0] == 'ASSUME':
+                        return (not e[1]), 'lemma precondition is %s natively' % e[1]
+                    a, b = e[1][ob['leaf']], e[2][ob['leaf']]
+                    return (not close(a, b)), 'lemma precondition natively lhs=%r rhs=%r' % (a, b)
+                continue
             if e[0] == 'ASSUME' and not e[1]:
                 return False, 'assumption false natively'
             if e[0] == 'ASSUMEEQ':
@@ -610,11 +669,16 @@ class Check:
             goal = bnot(ob['cond'])
         else:
             goal = True
-        for bound in (4, 64):
+        # third variant: no floor on the residual (the witness may be inherently tiny, e.g. inside an absolute tolerance),
+        # but every input is 0 or at least 2^-60 in magnitude, so that squares and products do not underflow natively
+        plain_goal = bnot(cmp('=', ob['lhs'], ob['rhs'])) if ob['kind'] == 'eq' else goal
+        for bound, g in ((4, goal), (64, goal), (4, plain_goal)):
             extra = []
             for nm in names:
                 extra.append('(assert (and (<= (- %d.0) |%s|) (<= |%s| %d.0)))' % (bound, nm, nm, bound))
-            script, _, pr = solver.build_script(pc + [goal], o, want_model=[nm for nm, _ in order], extra=None)
+                if g is plain_goal:
+                    extra.append('(assert (or (= |%s| 0.0) (>= |%s| (/ 1.0 1152921504606846976.0)) (<= |%s| (- (/ 1.0 1152921504606846976.0)))))' % (nm, nm, nm))
+            script, _, pr = solver.build_script(pc + [g], o, want_model=[nm for nm, _ in order], extra=None)
             if script is None:
                 continue
             # place the bounds before (check-sat)
@@ -641,7 +705,14 @@ class Check:
         stretch = set(o.get('stretch', []))
         obs = m.obligations
         s.stats['obligations'] += len(obs)
-        futs = [(ob, pool.submit(s.solve_obligation, ob, o, order)) for ob in obs]
+        def timed(ob):
+            t0 = time.time()
+            r = s.solve_obligation(ob, o, order)
+            r['wall'] = round(time.time() - t0, 2)
+            if os.environ.get('VERIF_DEBUG') and r['wall'] > 4:
+                log('    slow: %s leaf %d wall=%.1fs result=%s by %s attempts=%s' % (ob['id'], ob['leaf'], r['wall'], r['result'], r.get('solver'), r.get('attempts')))
+            return r
+        futs = [(ob, pool.submit(timed, ob)) for ob in obs]
         nun = nsat = nunk = 0
         worst = 0.0
         for ob, fu in futs:
@@ -778,7 +849,8 @@ class Check:
             # curated boundary vectors (props.py 'vectors') also act as concrete tests of the assertions themselves: a net
             # under the solver for tolerance-edge inputs where sat-finding is hard.  Random vectors are NOT judged this way.
             if vec in [list(x) for x in o.get('vectors', [])]:
-                assumed = all((e[0] != 'ASSUME' or e[1]) and (e[0] != 'ASSUMEEQ' or all(close(a, b, 1e-9) for a, b in zip(e[1], e[2]))) for e in nat)
+                assumed = all((e[0] != 'ASSUME' or e[1]) and (e[0] != 'ASSUMEEQ' or all(close(a, b, 1e-9) for a, b in zip(e[1], e[2])))
+                              for e in nat if not (e[0] in ('ASSUME', 'ASSUMEEQ') and e[-1]))
                 seen = {}
                 for e in nat:
                     if e[0] == 'PANIC':
@@ -1017,9 +1089,16 @@ def replay_file(prop, path):
         print('--- native %s build, harness %s, inputs %s' % ('release' if release else 'dev', d['harness'], {x['name']: x['value'] for x in d['inputs']}))
         want_id, want_k = d['assert'].rsplit('#', 1)
         seen = {}
+        lemma_k = {}
         failed = False
         for e in runs[0]:
             print('   ', e)
+            if e[0] in ('ASSUME', 'ASSUMEEQ') and e[-1]:
+                # precondition of a lemma application (an obligation, see replay_model0)
+                k = lemma_k.get(e[-1], 0)
+                lemma_k[e[-1]] = k + 1
+                if want_id == 'apply:%s:pre' % e[-1] and k == int(want_k):
+                    failed = (not e[1]) if e[0] == 'ASSUME' else not close(e[1][d['leaf']], e[2][d['leaf']], d.get('tol', 1e-6))
             if e[0] in ('ASSERT', 'ASSERTEQ'):
                 k = seen.get(e[1], 0)
                 seen[e[1]] = k + 1
